@@ -67,7 +67,7 @@ InitTh(t) ==
     gen |-> 0, disc |-> FALSE, node |-> 0, offset |-> 0, held |-> <<>>, handles |-> <<>>,
     stack |-> <<>>, r |-> NoG, old |-> 0, new |-> 0, todo |-> <<>>, m |-> 0, control |-> IDLE,
     ts |-> 0, ms |-> 0, ps |-> <<>>, steps |-> 0, cur |-> NoG, wl |-> <<>>, scan |-> 0,
-    spur |-> 0, kind |-> "", depth |-> 0, after |-> "", used |-> FALSE, hnode |-> 0, prev |-> NoG, cont |-> "", iafter |-> "", cache |-> 0, xshared |-> 0 ]
+    spur |-> 0, kind |-> "", depth |-> 0, after |-> "", used |-> FALSE, hnode |-> 0, prev |-> NoG, cont |-> "", iafter |-> "", cache |-> 0, xshared |-> 0, ha |-> 0 ]
 
 Init ==
   /\ sh = [ storage |-> [c \in Conts |-> c],        \* container c initially holds the object at address c
@@ -500,7 +500,11 @@ W_res(t) ==    \* list.rs:143 active_writers.fetch_add(1, Acquire)
 \* ---- help (helping.rs:215-297); own node = MY(t), who = m
 H_ctrl(t) ==   \* helping.rs:222 who.control.load(SeqCst)
   /\ PC(t) = "H_ctrl"
-  /\ Set(t, Step1([L(t) EXCEPT !.control = sh.ctrl[L(t).m], !.pc = "H_sw"]))
+  \* (seeded model bugs "space_hoisted" / "addr_hoisted": their_space / active_addr read ONCE, next to the first
+  \*  control read, instead of inside the retry loop - the loop may continue on a NEWER transaction of the reader)
+  /\ Set(t, Step1([L(t) EXCEPT !.control = sh.ctrl[L(t).m], !.pc = "H_sw",
+                                !.ts = IF Bug = "space_hoisted" THEN sh.space[L(t).m] ELSE @,
+                                !.ha = IF Bug = "addr_hoisted" THEN sh.addr[L(t).m] ELSE @]))
   /\ (IF MY(t) = 0 THEN Fail("NoPanic: LocalNode::with ensures it is set (help) list.rs:320") ELSE NoEmit)
   /\ UNCHANGED <<sh, hp>>
 PaySlots == [i \in 1..(NF + 1) |-> IF i <= NF THEN i ELSE -1]
@@ -513,7 +517,7 @@ H_sw(t) ==     \* the match on control & TAG_MASK
   /\ UNCHANGED <<sh, hp>>
 H_addr(t) ==   \* helping.rs:239 who.active_addr.load(SeqCst)
   /\ PC(t) = "H_addr"
-  /\ IF sh.addr[L(t).m] # L(t).c
+  /\ IF (IF Bug = "addr_hoisted" THEN L(t).ha ELSE sh.addr[L(t).m]) # L(t).c
      THEN Set(t, Step1([L(t) EXCEPT !.pc = "H_re"]))
      ELSE \* helping.rs:258 replacement(): a full nested load on our own node
           Set(t, Step1([L(t) EXCEPT !.pc = LoadEntry, !.stack = <<"H_into">> \o @,
@@ -530,7 +534,7 @@ H_into(t) ==   \* .into_inner() of the nested guard
   /\ Set(t, [L(t) EXCEPT !.pc = "I_start", !.iafter = "H"]) /\ NoEmit /\ UNCHANGED <<sh, hp>>
 H_their(t) ==  \* helping.rs:263 who.space_offer.load(SeqCst)
   /\ PC(t) = "H_their"
-  /\ Set(t, Step1([L(t) EXCEPT !.ts = sh.space[L(t).m], !.pc = "H_mine"])) /\ NoEmit /\ UNCHANGED <<sh, hp>>
+  /\ Set(t, Step1([L(t) EXCEPT !.ts = IF Bug = "space_hoisted" THEN @ ELSE sh.space[L(t).m], !.pc = "H_mine"])) /\ NoEmit /\ UNCHANGED <<sh, hp>>
 H_mine(t) ==   \* helping.rs:265 self.space_offer.load(SeqCst)
   /\ PC(t) = "H_mine"
   /\ Set(t, Step1([L(t) EXCEPT !.ms = sh.space[IF MY(t) = 0 THEN L(t).hnode ELSE MY(t)], !.pc = "H_envst"]))
